@@ -44,6 +44,9 @@ def gen_case(seed, tier):
         'clock': {'mode': rng.choice(('frozen', 'tick'))}, 'line_p': 0.0, 'shards': rng.choice((1, 2, 3)),
         'yield_clock': rng.random() < 0.5, 'post_stmt_yield': rng.random() < 0.3,
         'think': [rng.choice((0.0, 0.0, 0.001, 0.003)) for _ in range(n)],
+        # 'forked': the primitive (and its cache object) is built once, before the workers exist, and inherited by worker
+        # processes whose main threads all have the same thread id - what fork() gives
+        'forked': rng.random() < 0.25,
     }
     if cfg['topology'] == 'shared':
         cfg['line_p'] = rng.choice((0.0, 0.0, 0.05))
@@ -124,6 +127,15 @@ def run_case(case):
                 return name
             return work
 
+        # fork(): every child gets its own copy of the object graph as it was in the parent.  Simulated with a pickle
+        # round trip of the primitive built in the harness process (a Cache pickles to its directory, timeout and disk).
+        import pickle
+        forked = cfg.get('forked') and kind != 'barrier'
+        inherited = {}
+        if forked:
+            parent_prim = make_prim(main)
+            inherited['copies'] = [pickle.loads(pickle.dumps(parent_prim)) for _ in range(cfg['n'])]
+
         def contender(i, cache):
             name = 'c%d' % i
 
@@ -135,7 +147,7 @@ def run_case(case):
                             sim.sleep(cfg['think'][i])
                         work(name)
                     return True
-                prim = make_prim(cache)
+                prim = inherited['copies'][i] if forked else make_prim(cache)
                 if cfg['bad_release'] and i == 0 and kind == 'rlock':
                     try:
                         prim.release()
@@ -184,9 +196,11 @@ def run_case(case):
             sem_release_refused('before')
         tasks = []
         for i in range(cfg['n']):
-            cache = main if cfg['topology'] == 'shared' else make_cache()
-            procname = 'p0' if cfg['topology'] in ('shared', 'own') else 'p%d' % i
+            cache = main if cfg['topology'] == 'shared' and not forked else make_cache()
+            procname = 'p0' if (cfg['topology'] in ('shared', 'own') and not forked) else 'p%d' % i
             tasks.append(sim.spawn('c%d' % i, procname, contender(i, cache)))
+            if forked:
+                tasks[-1].tid = 77
         try:
             sim.run()
         except SimIncident as inc:
